@@ -721,11 +721,15 @@ fn run_group(rng: &mut Rng, stream: bool, id: &str, prof: &Profile) {
     let mut cur_w = 1usize;
     let mut polls = 0usize;
     let mut poisoned = false;
-    let nops = 6 + rng.below(if prof.is("big") || prof.is("refill") { 60 } else { 22 });
-    let mut fill_left = if prof.is("refill") { 1 + rng.below(3) } else { 0 };
+    let nops = if prof.is("drain") { 400 } else { 6 + rng.below(if prof.is("big") || prof.is("refill") { 60 } else { 22 }) };
+    let mut fill_left = if prof.is("refill") || prof.is("drain") { 1 + rng.below(4) } else { 0 };
     let mut last_o = String::new();
+    let mut g_woken = true;
+    let mut refills = 0usize;
+    let mut drain_target: Option<usize> = None;
     let ck = if stream { ChildKind::Stream } else { ChildKind::Fut };
-    let panic_child: Option<usize> = if rng.chance(if prof.is("panic") { 50 } else { 5 }) { Some(rng.below(4)) } else { None };
+    let panic_child: Option<usize> =
+        if !prof.is("drain") && rng.chance(if prof.is("panic") { 50 } else { 5 }) { Some(rng.below(4)) } else { None };
     let mut new_child = |rng: &mut Rng, block: &mut Block, key_of: &mut Vec<Option<usize>>| -> usize {
         let c = key_of.len();
         let mut s = gen_script(rng, ck, c, c + 2, prof.is("refill"), prof);
@@ -768,7 +772,49 @@ fn run_group(rng: &mut Rng, stream: bool, id: &str, prof: &Profile) {
         let grp = g.as_mut().unwrap();
         // profile `refill`: fill the group, drive it until it reports None (polls follow wake-ups),
         // refill (the new members land in reused slots), and so on
-        let r = if prof.is("refill") {
+        let r = if prof.is("drain") {
+            // fair wake-only executor over a group (see the fixed-family `drain`): fill, then poll only
+            // when woken (or after an item / an insert), otherwise prod a waiting member; after
+            // `None` refill (twice at most); stuck = `an 98 0`
+            if fill_left > 0 {
+                fill_left -= 1;
+                g_woken = true;
+                0
+            } else if last_o == "N" {
+                refills += 1;
+                if refills > 2 {
+                    break;
+                }
+                last_o.clear();
+                fill_left = rng.below(3);
+                g_woken = true;
+                0
+            } else if g_woken || last_o.starts_with('S') || last_o.is_empty() {
+                30
+            } else {
+                let waiting: Vec<usize> = CTX.with(|c| {
+                    let c = c.borrow();
+                    let mut last: Vec<Option<bool>> = vec![None; key_of.len()];
+                    for l in &c.log {
+                        let ws: Vec<&str> = l.split(' ').collect();
+                        if ws.len() == 3 && ws[0] == "ce" {
+                            if let Ok(k) = ws[1].parse::<usize>() {
+                                if k < last.len() {
+                                    last[k] = Some(ws[2] == "P");
+                                }
+                            }
+                        }
+                    }
+                    (0..key_of.len()).filter(|k| key_of[*k].is_some() && last[*k] == Some(true) && !c.scripts[*k].is_empty()).collect()
+                });
+                if waiting.is_empty() {
+                    log("an 98 0".into());
+                    break;
+                }
+                drain_target = Some(*rng.pick(&waiting));
+                60
+            }
+        } else if prof.is("refill") {
             if fill_left > 0 {
                 fill_left -= 1;
                 0
@@ -803,7 +849,7 @@ fn run_group(rng: &mut Rng, stream: bool, id: &str, prof: &Profile) {
                 log(format!("mirror-mismatch {mk} {k}"));
             }
         } else if r < 50 {
-            if polls == 0 || !rng.chance(20) {
+            if polls == 0 || prof.is("drain") || !rng.chance(20) {
                 cur_w = next_w;
                 next_w += 1;
             }
@@ -811,6 +857,7 @@ fn run_group(rng: &mut Rng, stream: bool, id: &str, prof: &Profile) {
             let from = CTX.with(|c| c.borrow().log.len());
             let o = do_poll(&mut |cx| grp.poll(cx), cur_w);
             last_o = o.clone();
+            g_woken = CTX.with(|c| c.borrow().log[from..].iter().any(|l| *l == format!("wo {cur_w}")));
             polls += 1;
             settle(from, &mut mirror, &mut key_of);
             if o == "X" {
@@ -818,10 +865,20 @@ fn run_group(rng: &mut Rng, stream: bool, id: &str, prof: &Profile) {
             }
         } else if r < 72 {
             let live: Vec<usize> = (0..key_of.len()).filter(|c| key_of[*c].is_some()).collect();
-            let c = if prof.is("refill") && !live.is_empty() && rng.chance(85) { *rng.pick(&live) } else { rng.below(key_of.len()) };
-            let age = if rng.chance(75) { 0 } else { rng.below(3) };
+            let c = if let Some(t) = drain_target.take() {
+                t
+            } else if prof.is("refill") && !live.is_empty() && rng.chance(85) {
+                *rng.pick(&live)
+            } else {
+                rng.below(key_of.len())
+            };
+            let age = if prof.is("drain") || rng.chance(75) { 0 } else { rng.below(3) };
             block.ops.push(format!("f {c} {age}"));
+            let from_f = CTX.with(|c| c.borrow().log.len());
             fire(c, age);
+            if CTX.with(|c| c.borrow().log[from_f..].iter().any(|l| *l == format!("wo {cur_w}"))) {
+                g_woken = true;
+            }
         } else if r < 80 {
             let j = rng.below(inserts + 1);
             block.ops.push(format!("r {j}"));
